@@ -60,9 +60,9 @@ def doc_v2(guid):
     return {"version": "2.0", "enabled": True, "guid": guid, "rules": {"wireserver": V2_ITEM, "imds": None, "hostga": None}}
 
 
-def P(status_ok=True, acq=0, att=0, rotate=False, guid="latch", store_fail=None, local_fail=False):
+def P(status_ok=True, acq=0, att=0, rotate=False, guid="latch", store_fail=None, local_fail=False, reissue=False):
     return {"status_ok": status_ok, "acq": acq, "att": att, "rotate": rotate, "guid": guid, "store_fail": store_fail,
-            "local_fail": local_fail}
+            "local_fail": local_fail, "reissue": reissue}
 
 
 SHIM = [None]       # path of the built tools/c08_openfail.c (LD_PRELOAD), set by run()
@@ -97,6 +97,22 @@ def scenarios():
               "polls": [P(guid=G[4])]})
     s.append({"name": "rename-fails-then-retry", "init": {}, "issued": 0, "latched": None, "keys": k, "doc": "v1",
               "polls": [P(store_fail="rename"), P()], "strace_extra": ["-e", "inject=rename:error=EIO:when=1"], "extra_trace": "rename", "skip_classes": ["rename"]})
+    # key directories that accumulated older (valid, host-issued) key files whose guids sort below and above the latched one
+    old = [mk_key(g, inc=i) for i, g in enumerate(["00000000-0000-4000-8000-00000000000a", "00000000-ffff-4000-8000-00000000000b",
+                                                   "1a000000-aaaa-4bbb-8ccc-000000000001", "5b000000-aaaa-4bbb-8ccc-000000000002",
+                                                   "9c000000-aaaa-4bbb-8ccc-000000000003", "A0000000-AAAA-4BBB-8CCC-000000000004",
+                                                   "c0000000-aaaa-4bbb-8ccc-000000000005", "e0000000-aaaa-4bbb-8ccc-000000000006",
+                                                   "f0000000-aaaa-4bbb-8ccc-000000000007"])]
+    old_files = {kk["guid"] + ".key": kkdrv.key_file_bytes(kk) for kk in old}
+    s.append({"name": "restart-with-key-among-9-older-keys", "init": dict(old_files, **{G[0] + ".key": full0}), "issued": len(old) + 1,
+              "latched": G[0], "keys": old + k, "doc": "v1", "polls": [P()]})
+    s.append({"name": "fresh-latch-among-6-older-keys", "init": {kk["guid"] + ".key": kkdrv.key_file_bytes(kk) for kk in old[3:]},
+              "issued": len(old[3:]), "latched": None, "keys": old[3:] + k, "doc": "v1", "polls": [P()]})
+    # a host that hands out its last, not yet attested, key again (as the repository's server_mock does)
+    s.append({"name": "fresh-latch-reissuing-host", "init": {}, "issued": 0, "latched": None, "keys": k, "doc": "v1",
+              "polls": [P(reissue=True)], "reissue": True})
+    s.append({"name": "acquire-answer-lost-reissuing-host", "init": {}, "issued": 0, "latched": None, "keys": k, "doc": "v1",
+              "polls": [P(acq=1, reissue=True), P(reissue=True)], "reissue": True})
     # transient failure of the look-up of an intact, latched key file (EMFILE / EIO on the open), then a healthy restart
     s.append({"name": "transient-read-error-host-issues-nothing", "init": {G[0] + ".key": full0}, "issued": 1, "latched": G[0], "keys": k,
               "doc": "v1", "polls": [P(local_fail=True, acq=2)], "fail_open": {"guid": G[0], "errno": 24}})
@@ -113,12 +129,16 @@ class HonestHost:
 
     def __init__(self, scn, key_dir):
         self.keys = scn["keys"]
-        self.issued = scn["issued"]
+        self.issued = scn["issued"]          # number of acquire answers that handed out a key (re-issues count)
+        self.last_ix = scn["issued"] - 1     # position in keys of the key handed out last
         self.latched = scn["latched"]
         self.init_latched = scn["latched"]
         self.key_dir = key_dir
         self.docf = doc_v1 if scn["doc"] == "v1" else doc_v2
         self.attest_checks = []
+
+    def issued_keys(self):
+        return self.keys[:self.last_ix + 1]
 
     def step(self, cfg):
         def status():
@@ -131,9 +151,16 @@ class HonestHost:
             return {"code": 200, "body": kkdrv.doc_json(self.docf(g))}
 
         def acquire():
-            if cfg["acq"] == 2 or self.issued >= len(self.keys):
+            if cfg["acq"] == 2:
                 return {"code": 500, "body": "no"}
-            k = self.keys[self.issued]
+            if cfg.get("reissue") and self.last_ix >= 0 and self.keys[self.last_ix]["guid"] != self.latched:
+                ix = self.last_ix                # the same, not yet attested, key again
+            else:
+                ix = self.last_ix + 1
+            if ix >= len(self.keys):
+                return {"code": 500, "body": "no"}
+            k = self.keys[ix]
+            self.last_ix = ix
             self.issued += 1
             return {"code": 200, "body": k} if cfg["acq"] == 0 else {"code": 500, "body": "lost"}
 
@@ -144,7 +171,7 @@ class HonestHost:
                 content = open(os.path.join(self.key_dir, guid + ".key"), "rb").read()
             except OSError:
                 content = None
-            want = [kkdrv.key_file_bytes(kk) for kk in self.keys[:self.issued] if kk["guid"] == guid]
+            want = [kkdrv.key_file_bytes(kk) for kk in self.issued_keys() if kk["guid"] == guid]
             self.attest_checks.append((guid, content is not None and content in want))
             if cfg["att"] == 2:
                 return {"code": 403, "body": ""}
@@ -169,7 +196,7 @@ def observe(scn, key_dir, host, m):
             reqs.append([3, ""])
         elif kind == "attest":
             reqs.append([6, det["guid"]])
-    return {"files": files, "reqs": reqs, "latched": host.latched, "issued": host.issued,
+    return {"files": files, "reqs": reqs, "latched": host.latched, "issued": host.issued, "last_ix": host.last_ix,
             "digest": [None if files.get(p) is None else list(digest(files[p])) for p in scn["paths"]],
             "unexpected_files": sorted(set(files) - set(scn["paths"]))}
 
@@ -233,20 +260,36 @@ def first_process(scn, binary, root, cls, n, count_file=None):
     return killed, obs, dump, host, key_dir, log_dir
 
 
-def restart_process(scn, rdrv, host, key_dir, log_dir):
-    """a fresh agent on the surviving directory, the host continuing from its state (clean answers)"""
+def restart_process(scn, rdrv, host, key_dir, log_dir, extra_polls=3):
+    """a fresh agent on the surviving directory, the host continuing from its state (clean answers; a
+    re-issuing host when the scenario says so).  The first poll is compared with the model; if the agent
+    has not reached "key in memory = the host's latch" by then it is given `extra_polls` more healthy polls
+    (liveness after a crash: "on restart it can still authenticate")."""
     m = mockhost.MockHost()
-    m.release(host.step(P()))
+    cfg = P(reissue=bool(scn.get("reissue")))
+    m.release(host.step(dict(cfg)))
     try:
         rdrv.cmd({"cmd": "start", "base_url": m.base_url, "key_dir": key_dir, "log_dir": log_dir, "interval_ms": 10})
         if not m.wait_status(2, timeout=40):
             return {"err": "the restarted agent did not complete a poll within 40 s"}
         dump = rdrv.cmd({"cmd": "dump"})
-        rdrv.cmd({"cmd": "stop"})
         obs = observe(scn, key_dir, host, m)
-        return {"reqs": obs["reqs"], "key": None if dump["key_guid"] is None else [dump["key_guid"], dump["key_value"], dump["key_incarnation"]],
-                "state": dump["state"], "digest": obs["digest"], "latched": host.latched, "issued": host.issued, "files": obs["files"],
-                "panics": dump["panics"]}
+        res = {"reqs": obs["reqs"], "key": None if dump["key_guid"] is None else [dump["key_guid"], dump["key_value"], dump["key_incarnation"]],
+               "state": dump["state"], "digest": obs["digest"], "latched": host.latched, "issued": host.issued, "files": obs["files"],
+               "panics": dump["panics"]}
+        polls = 1
+        d = dump
+        while not (d["key_guid"] is not None and d["key_guid"] == host.latched) and polls <= extra_polls:
+            m.release(host.step(dict(cfg)))
+            polls += 1
+            if not m.wait_status(polls + 1, timeout=40):
+                break
+            d = rdrv.cmd({"cmd": "dump"})
+        res["authenticates"] = d["key_guid"] is not None and d["key_guid"] == host.latched
+        res["polls_given"] = polls
+        res["requests_total"] = [r[0] for r in observe(scn, key_dir, host, m)["reqs"]]
+        rdrv.cmd({"cmd": "stop"})
+        return res
     finally:
         m.close()
 
@@ -421,7 +464,7 @@ def whole_key(content):
 
 def prop_check(scn, rec):
     o = rec["obs"]
-    issued = scn["keys"][:o["issued"]]
+    issued = scn["keys"][:o["last_ix"] + 1]
     init_bad = {n: c for n, c in scn["init"].items() if whole_key(c) is None}
     # "a crash never leaves a truncated or corrupt file under a key's final name"
     for n, c in o["files"].items():
@@ -451,6 +494,19 @@ def prop_check(scn, rec):
             return "restart: the restarted agent holds a different key value for %s" % g
         if any(q[0] == 3 for q in r["reqs"]):
             return "restart: the restarted agent requested a new key although %s is latched and stored" % g
+    # "on restart it can still authenticate": with a healthy host the restarted agent ends up holding the key the host has latched
+    if r is not None and "err" not in r and r.get("authenticates") is False:
+        return ("restart: after %d healthy polls (requests %s) the restarted agent still holds no key the host has latched"
+                % (r.get("polls_given"), r.get("requests_total")))
+    # the first process of the scenario IS a restart when the scenario starts with a latched, stored key and a healthy first poll
+    p0 = scn["polls"][0]
+    g0 = scn["latched"]
+    if g0 is not None and (g0 + ".key") in scn["init"] and (g0 + ".key") not in init_bad and p0["status_ok"] and p0["guid"] == "latch" \
+            and not p0["rotate"] and not p0["local_fail"]:
+        second_status = [i for i, q in enumerate(o["reqs"]) if q[0] == 0][1:2]
+        first_poll = o["reqs"][:second_status[0]] if second_status else o["reqs"]
+        if any(q[0] == 3 for q in first_poll):
+            return "start-up on a directory that holds the latched key %s: the agent requested a new key in its first poll" % g0
     return None
 
 
@@ -463,9 +519,9 @@ def coq_hscript(scn, cfg, items):
     if cfg["store_fail"] == "rename":
         sf = "(Some (N.to_nat 1000000))"         # clipped to "everything but the rename"
     return ("{| hs_rotate := %s; hs_status_ok := %s; hs_doc := %s; hs_guid := %s; hs_keys := %s; hs_acq := %d%%N; "
-            "hs_store := %s; hs_att := %d%%N; hs_local_fail := %s |}" % (vplib.cbool(cfg["rotate"]), vplib.cbool(cfg["status_ok"]), docf, guid,
+            "hs_store := %s; hs_att := %d%%N; hs_local_fail := %s; hs_reissue := %s |}" % (vplib.cbool(cfg["rotate"]), vplib.cbool(cfg["status_ok"]), docf, guid,
                                                     clist([kkdrv.coq_key(k) for k in scn["keys"]], "key"), cfg["acq"], sf, cfg["att"],
-                                                    vplib.cbool(cfg.get("local_fail", False))))
+                                                    vplib.cbool(cfg.get("local_fail", False)), vplib.cbool(cfg.get("reissue", False))))
 
 
 def coq_scenario_parts(scn, items):
@@ -475,7 +531,7 @@ def coq_scenario_parts(scn, items):
         fs, issued, copt(cb(scn["latched"]) if scn["latched"] is not None else None, "bytes"))
     paths = clist([cb(p) for p in scn["paths"]], "path")
     polls = clist([coq_hscript(scn, c, items) for c in scn["polls"]], "hscript")
-    return paths, st, polls, coq_hscript(scn, P(), items)
+    return paths, st, polls, coq_hscript(scn, P(reissue=bool(scn.get("reissue"))), items)
 
 
 def coq_summaries(scn, items):
@@ -712,6 +768,7 @@ def run(ctx):
     for t in ths:
         t.join()
 
+    ctx.log("kill runs done: %d killed" % sum(1 for r in records if r["killed"]))
     # ---------------- model, phase 2: the crash points the observations propose, evaluated in full ----------------
     def summary_of(scn, o):
         return (len(o["reqs"]), tuple(None if o["files"].get(p) is None else len(o["files"][p]) for p in scn["paths"]))
@@ -806,7 +863,7 @@ def run(ctx):
         "evaluations": n_killed + len(scns) + codec_cases,
         "distinct_nontrivial": sum(len(v) for v in matched_states.values()),
         "traces_validated_against_impl": len(scns) - len({d["case"].get("scenario") for d in disagreements if isinstance(d.get("case"), dict) and d["case"].get("scenario")}),
-        "rule": "14 scenarios (transient EMFILE / EIO on the look-up of an intact latched key file (LD_PRELOAD shim), then healthy restart; fresh latch v1.0 / v2.0, restart with key, rotation (latch dropped / other guid named), unreadable local key, foreign guid, acquire answer lost, "
+        "rule": "18 scenarios (key directories with 6-9 older key files sorting below and above the latched guid; a host that re-issues its unattested key; transient EMFILE / EIO on the look-up of an intact latched key file (LD_PRELOAD shim), then healthy restart; fresh latch v1.0 / v2.0, restart with key, rotation (latch dropped / other guid named), unreadable local key, foreign guid, acquire answer lost, "
                 "attest answer lost, attest refused, status error, rename fails) x SIGKILL on entering the N-th call of each of "
                 "openat/write/rename/read/statx on the key files and socket/connect/writev/recvfrom/shutdown (%s), then restart on the "
                 "surviving directory; the observed (key directory, host latch, issued count, request log) must be one of the model's "
